@@ -275,13 +275,79 @@ pub fn run(tier: Tier, seed: u64) -> i32 {
             total.merge(st);
         }
     }
+    // histories: every ordered sequence of 2 (thorough: 3) rows over a reduced menu, two clock
+    // columns: what one row's expansion leaves behind must not leak into the next row's
+    {
+        let sigs = vec![Sig::inp("C1", 1, 0), Sig::out("R", 4), Sig::inp("C2", 1, 0), Sig::inp("A", 1, 0), Sig::inp("W", 4, 3), Sig::out("Q", 4)];
+        let header: Vec<String> = ["C1", "C2", "A", "W", "Q", "R"].iter().map(|s| s.to_string()).collect();
+        let one = vec![l(0), l(1), Entry::X, Entry::C];
+        let menus2: Vec<Vec<Entry>> = vec![one.clone(), one.clone(), one.clone(), vec![l(5), Entry::C, Entry::Paren(k())], vec![Entry::X, l(2)], vec![Entry::X, Entry::Paren(k())]];
+        // sequences of three rows: smaller menus for the wide input and the expected columns
+        let menus3: Vec<Vec<Entry>> = vec![one.clone(), one.clone(), one.clone(), vec![l(5), Entry::C], vec![l(2)], vec![Entry::X]];
+        let script = vec![Step::Ans(vec![("R".into(), V::Num(9)), ("Q".into(), V::Num(5))])];
+        let last = vec![l(1), l(0), l(1), l(2), l(7), l(9)];
+        for nrows in 2..=tier.pick(2, 3) {
+            if nrows == 3 && deadline.expired() {
+                break;
+            }
+            let menus = if nrows == 2 { &menus2 } else { &menus3 };
+            let per_row: u64 = menus.iter().map(|m| m.len() as u64).product();
+            let rad_row: Vec<u64> = menus.iter().map(|m| m.len() as u64).collect();
+            let n = per_row.pow(nrows as u32) * 2;
+            let st = par_range(&format!("histories of {nrows} rows over a reduced menu, two clock columns, x2 program forms"), n, &deadline, |idx, st| {
+                let form = idx % 2;
+                let mut rest = idx / 2;
+                let mut rows = vec![];
+                for _ in 0..nrows {
+                    let d = digits(rest % per_row, &rad_row);
+                    rest /= per_row;
+                    rows.push(Stmt::Row(d.iter().enumerate().map(|(c, &i)| menus[c][i].clone()).collect()));
+                }
+                let tail = Stmt::Row(last.clone());
+                let body = if form == 0 {
+                    let mut b = vec![Stmt::Let("k".into(), lit(1))];
+                    b.extend(rows);
+                    b.push(tail);
+                    b
+                } else {
+                    vec![Stmt::Loop("k".into(), lit(2), rows), tail]
+                };
+                let prog = Program { header: header.clone(), body };
+                let text = text(&prog);
+                let lines = lines(&prog);
+                let rl = row_lines(&lines);
+                let r = ref_run_fuel(&prog, &sigs, &script, 20_000, 4000);
+                st.evals += 1;
+                if r.end == RefEnd::Fuel {
+                    st.out_of_scope += 1;
+                    return;
+                }
+                if r.events.contains("c_expansion") || r.events.contains("x_expansion") {
+                    st.nontrivial += 1;
+                }
+                st.witness("history_of_rows");
+                let mut opts = RunOpts::new(r.items.len() + 1);
+                opts.after_end = 1;
+                opts.repeat_last = true;
+                let obs = run_dynamic(&text, &sigs, true, &script, &opts);
+                st.steps += obs.items.len() as u64;
+                let proj = Proj { input_values: true, expected: true, output: false, checked_kind: true, lines: true, vars: false, verdicts: false };
+                if let Some((_, m)) = run_mismatch(&r, &obs, proj, Some(&rl)) {
+                    let class = format!("history: {}", classify(&m));
+                    let summary = format!("program:\n{text}first difference at {m}");
+                    st.violation(&class, idx, summary, || dyn_replay(&text, &sigs, true, &script, &opts, ref_items_brief(&r), &obs, &m));
+                }
+            });
+            total.merge(st);
+        }
+    }
     let meta = CheckMeta {
         id: "C05",
         tier,
         seed,
-        rule: "every combination of per-column entries {0,1,X,C,Z,(k)} / {5,X,C,(k+1),Z} / expected {X,Z,2,(k)} (and bits(2,k) over adjacent columns), in each of 4 program forms, for each configuration; mixed-radix index decoded injectively; a case is non-trivial if the row holds X or C in an input column".into(),
+        rule: "every combination of per-column entries {0,1,X,C,Z,(k)} / {5,X,C,(k+1),Z} / expected {X,Z,2,(k)} (and bits(2,k) over adjacent columns), in each of 4 program forms, for each configuration; mixed-radix index decoded injectively; plus every ordered sequence of 2 (thorough: 3) rows over a reduced menu with two clock columns; a case is non-trivial if a row holds X or C in an input column".into(),
         assumptions: vec!["reference expansion in refsem.rs::do_row is the oracle".into(), "loop bounds are >= 1 here (bounds <= 0 are C01's)".into()],
-        required_witnesses: vec!["ten_x_inputs_and_a_clock", "x_expansion", "c_expansion", "x_and_c_composed", "bits_row", "depth 0", "loop depth 1", "loop depth 2", "repeat row"],
+        required_witnesses: vec!["ten_x_inputs_and_a_clock", "x_expansion", "c_expansion", "x_and_c_composed", "bits_row", "depth 0", "loop depth 1", "loop depth 2", "repeat row", "history_of_rows"],
         exhaustive_note: "all row shapes over the stated menus for every configuration and program form".into(),
         e1: false,
     };
